@@ -16,7 +16,10 @@
 //            (<= 1e-10 by construction: cond(matrix) <= 50, |coordinates| <= 32) which is far below locate_point's
 //            tolerance 1e-9 => the located simplex must be the expected face.
 //   lattice  any other triangulation, some lattice coordinate of the point is an integer: the computed coordinate may
-//            round to either side of the integer; see findings/C20-locate-lattice-coordinate.md.  Asserted under its own tag.
+//            round to either side of the integer, and locate_point's tolerance must absorb both (it did not before fix
+//            e214e02a7, see findings/C20-locate-lattice-coordinate.md).  Rounding <= 1e-10 is far inside the 1e-9
+//            tolerance, so the located simplex must again be the expected face; asserted under its own tag, and relaxed
+//            to "expected face + extra vertices of weight <= 1e-7" only while that finding is listed as known.
 // For every case the barycentric coordinates of the point with respect to the returned vertices are recomputed from
 // cartesian_coordinates() by a small linear solve: residual <= 1e-7 (1+|p|), every weight >= 1e-9 (no negligible
 // weight), weights sum to 1.
